@@ -406,6 +406,7 @@ func (seg *Segmenter) splitByFace(faces Fontmap) {
 }
 
 func splitByFace(input Input, availableFaces Fontmap, buffer []Input) []Input {
+	input.Face = nil // documented as ignored: only the faces returned by the font map are used
 	currentInput := input
 	for i := input.RunStart; i < input.RunEnd; i++ {
 		r := input.Text[i]
